@@ -167,6 +167,12 @@ def replay_indent_case(case, mods):
     if cfg['glyph'] == [45] and cfg['n'] == 2 and cfg['mode'] in ('all', 'first'):
         factory = text_gen.all_dashes_t if cfg['mode'] == 'all' else text_gen.initial_dash_t
         name = factory.__name__
+        # indenters made earlier or later by either factory are independent objects
+        before = (text_gen.all_dashes_t(), text_gen.initial_dash_t())
+        made = factory(text_gen.Indentor.TAB) if cfg['tab'] else factory()
+        after = (text_gen.initial_dash_t(), text_gen.all_dashes_t(text_gen.Indentor.TAB))
+        cmp(f'{name}(..) made between other factory calls', case['out'], _guard(lambda: py2lines(made.to_list(list(ls)))))
+        del before, after
         if cfg['tab']:
             cmp(f'{name}(Indentor.TAB).to_list', case['out'], _guard(lambda: py2lines(factory(text_gen.Indentor.TAB).to_list(list(ls)))))
         else:
@@ -176,7 +182,10 @@ def replay_indent_case(case, mods):
             cmp(f'{name}(None).to_list', case['out'], _guard(lambda: py2lines(factory(None).to_list(list(ls)))))
 
     def block_indent():
-        blk = text_gen.TextBlock(header='H e a d')
+        given = text_gen.TextBlock('H e a d')            # the header handed over as a TextBlock of the caller ...
+        blk = text_gen.TextBlock(header=given)
+        given.indent()                                   # ... which the caller goes on using: the block keeps its own header
+        given.append('more')
         blk.lines = list(ls)
         ret = blk.indent(make_indentizer(text_gen, cfg))
         if ret is not blk:
